@@ -16,6 +16,7 @@ type c16Case struct {
 	IsNil bool   `json:"isnil"`
 	Big   bool   `json:"big"`
 	Class string `json:"class"`
+	FillV *int   `json:"fillv"`
 }
 
 func init() { families["C16"] = runC16 }
@@ -40,11 +41,20 @@ func runC16(raw json.RawMessage, w *Writer) {
 	}
 	w.Emit(Ev{"ev": "reset", "kind": c.Kind, "class": c.Class})
 	var input []byte
+	fillv := -1
+	if c.FillV != nil {
+		fillv = *c.FillV
+	}
 	if !c.IsNil {
 		input = pat(c.Len, c.Salt)
+		if fillv >= 0 {
+			for i := range input {
+				input[i] = byte(fillv)
+			}
+		}
 	}
 	pristine := cloneBytes(input)
-	base := Ev{"kind": c.Kind, "len": c.Len, "salt": c.Salt, "mtu": c.Mtu, "isnil": c.IsNil, "big": c.Big}
+	base := Ev{"kind": c.Kind, "len": c.Len, "salt": c.Salt, "mtu": c.Mtu, "isnil": c.IsNil, "big": c.Big, "fillv": fillv}
 	ev := func(name string) Ev {
 		e := Ev{"ev": name}
 		for k, v := range base {
